@@ -46,37 +46,37 @@ Proof. exact roundtrip_encipher4. Qed.
 Print Assumptions C04_encipher4.
 
 (* premises are satisfiable: the repository's vectors, and the toy cipher for format 4 *)
-Definition ex_pin : str := digit_chars [1; 2; 3; 4]%N.                               (* "1234" *)
-Definition ex_pan : str := digit_chars [5; 5; 5; 5; 5; 5; 5; 5; 5; 1; 2; 3; 4; 5; 6; 7]%N. (* "5555555551234567" *)
-Definition ex_tape : bytes := [1; 2; 3; 4; 5; 6; 7; 255]%N.
+Definition c04_pin : str := digit_chars [1; 2; 3; 4]%N.                               (* "1234" *)
+Definition c04_pan : str := digit_chars [5; 5; 5; 5; 5; 5; 5; 5; 5; 1; 2; 3; 4; 5; 6; 7]%N. (* "5555555551234567" *)
+Definition c04_tape : bytes := [1; 2; 3; 4; 5; 6; 7; 255]%N.
 
 Example C04_format0_instance :
-  bad_pin ex_pin = false /\ bad_pan13 ex_pan = false /\
-  encode_pinblock_iso_0 ex_pin ex_pan = Ok [4; 18; 97; 170; 170; 237; 203; 169]%N /\  (* 041261AAAAEDCBA9 *)
-  decode_pinblock_iso_0 [4; 18; 97; 170; 170; 237; 203; 169]%N ex_pan = Ok ex_pin.
+  bad_pin c04_pin = false /\ bad_pan13 c04_pan = false /\
+  encode_pinblock_iso_0 c04_pin c04_pan = Ok [4; 18; 97; 170; 170; 237; 203; 169]%N /\  (* 041261AAAAEDCBA9 *)
+  decode_pinblock_iso_0 [4; 18; 97; 170; 170; 237; 203; 169]%N c04_pan = Ok c04_pin.
 Proof. vm_compute. repeat split; reflexivity. Qed.
 
 Example C04_format2_instance :
-  encode_pinblock_iso_2 ex_pin = Ok [36; 18; 52; 255; 255; 255; 255; 255]%N /\         (* 241234FFFFFFFFFF *)
-  decode_pinblock_iso_2 [36; 18; 52; 255; 255; 255; 255; 255]%N = Ok ex_pin.
+  encode_pinblock_iso_2 c04_pin = Ok [36; 18; 52; 255; 255; 255; 255; 255]%N /\         (* 241234FFFFFFFFFF *)
+  decode_pinblock_iso_2 [36; 18; 52; 255; 255; 255; 255; 255]%N = Ok c04_pin.
 Proof. vm_compute. repeat split; reflexivity. Qed.
 
 Example C04_format3_instance :
   length (repeat 67%N 10) = 10%nat /\ forallb (fun c => (65 <=? c) && (c <=? 70))%N (repeat 67%N 10) = true /\
-  encode_pinblock_iso_3 ex_pin ex_pan (repeat 67%N 10) = Ok [52; 18; 97; 153; 153; 222; 248; 154]%N /\
-  decode_pinblock_iso_3 [52; 18; 97; 153; 153; 222; 248; 154]%N ex_pan = Ok ex_pin.
+  encode_pinblock_iso_3 c04_pin c04_pan (repeat 67%N 10) = Ok [52; 18; 97; 153; 153; 222; 248; 154]%N /\
+  decode_pinblock_iso_3 [52; 18; 97; 153; 153; 222; 248; 154]%N c04_pan = Ok c04_pin.
 Proof. vm_compute. repeat split; reflexivity. Qed.
 
 Example C04_field4_instance :
-  length ex_tape = 8%nat /\ bytes_ok ex_tape = true /\
-  encode_pin_field_iso_4 ex_pin ex_tape =
+  length c04_tape = 8%nat /\ bytes_ok c04_tape = true /\
+  encode_pin_field_iso_4 c04_pin c04_tape =
     Ok [68; 18; 52; 170; 170; 170; 170; 170; 1; 2; 3; 4; 5; 6; 7; 255]%N /\          (* 441234AAAAAAAAAA ... *)
-  decode_pin_field_iso_4 [68; 18; 52; 170; 170; 170; 170; 170; 1; 2; 3; 4; 5; 6; 7; 255]%N = Ok ex_pin.
+  decode_pin_field_iso_4 [68; 18; 52; 170; 170; 170; 170; 170; 1; 2; 3; 4; 5; 6; 7; 255]%N = Ok c04_pin.
 Proof. vm_compute. repeat split; reflexivity. Qed.
 
 Example C04_encipher4_instance :
   cipher_ok toy_aes /\ bs toy_aes = 16%nat /\ valid_key toy_aes (repeat 7%N 16) = true /\
-  bad_pan4 ex_pan = false /\
-  (do blk <- encipher_pinblock_iso_4 toy_aes (repeat 7%N 16) ex_pin ex_pan ex_tape;
-   decipher_pinblock_iso_4 toy_aes (repeat 7%N 16) blk ex_pan) = Ok ex_pin.
+  bad_pan4 c04_pan = false /\
+  (do blk <- encipher_pinblock_iso_4 toy_aes (repeat 7%N 16) c04_pin c04_pan c04_tape;
+   decipher_pinblock_iso_4 toy_aes (repeat 7%N 16) blk c04_pan) = Ok c04_pin.
 Proof. split; [exact toy_aes_ok|]. vm_compute. repeat split; reflexivity. Qed.
